@@ -80,6 +80,17 @@ func (m *c10Map) clone() *c10Map {
 	return n
 }
 
+// contentTs: the ts of a stored tree (greatest ts of the newest versions)
+func (m *c10Map) contentTs() uint64 {
+	var ts uint64
+	for _, e := range m.Es {
+		if e.Vs[0].Ts > ts {
+			ts = e.Vs[0].Ts
+		}
+	}
+	return ts
+}
+
 func (m *c10Map) idx(k []byte) (int, bool) {
 	i := sort.Search(len(m.Es), func(i int) bool { return bytes.Compare(m.Es[i].K, k) >= 0 })
 	return i, i < len(m.Es) && bytes.Equal(m.Es[i].K, k)
